@@ -26,16 +26,30 @@ class C21(Spec):
         "the full bookkeeping state after every event is compared, and every invariant is evaluated on the "
         "implementation's own state (hook VerifDump) and through the exported observers.")
     level_note = (
-        "sequential histories only (every public operation holds proxyMtx for its whole body; composite events are "
-        "modelled as sequences of atomic steps and the invariant is inductive per step); score/price queues are "
+        "every public operation holds proxyMtx for its whole body: composite events are modelled as sequences of "
+        "atomic steps and the invariant is inductive per step; concurrent bursts (<= 6 overlapping calls of PushTx / "
+        "RemoveTxs / RemoveTxsOfBlock / sweep / observers) are trace-validated: the driver must find a linearisation "
+        "of the model's atomic steps reproducing every response and the final state (thorough tier: also under the "
+        "race detector); score/price queues are "
         "out of scope (SimpleQueue only); miner transactions in rolled-back blocks and the delayed-tx cache are not "
         "modelled; configuration: perAcc > 0, lastMax > 0 (NewMempool defaults), shMax = cap (timeline constructor).")
     assumptions = (
         "transactions are abstract records (hash, sender, size, fee, expire fields, short hash); the harness maps real signed transactions/groups to them",
-        "each Mempool method body is atomic (it holds proxyMtx); concurrency is not explored beyond that",
+        "each Mempool method body is atomic (it holds proxyMtx); concurrent runs are only trace-validated (bursts of <= 6 calls), the schedule is not controlled",
         "types.Now() is driven through the add-only hook types.VerifSetTimeDelta; pool state is read through mempool.VerifDump",
         "tx.Check results for rolled-back block candidates are oracle inputs of the model",
     )
+
+    def runs(self, tier, seed):
+        # sequential histories, then concurrent bursts validated as linearisable traces (DESIGN.md 1.6a);
+        # thorough tier repeats the bursts under the Go race detector
+        rs = [dict(env={}), dict(env={"VERIF_MODE": "burst"})]
+        if tier == "thorough":
+            from .. import core
+            b, _log = core.go_build(self.harness, race=True)
+            if b:
+                rs.append(dict(env={"VERIF_MODE": "burst"}, binary=b))
+        return rs
 
 
 SPEC = C21()
